@@ -7,7 +7,7 @@ return Ok without having compared the stored checksum.
 Does not decide: strength of CRC32, corruption of the trailer's own type word beyond R4."""
 import re
 
-from tmpl import site, suffix, done_sites, start_sites, origin_locals, local_defs
+from tmpl import uses_of, site, suffix, done_sites, start_sites, origin_locals, local_defs
 from mir import operand_places, pl_fields
 
 SEC = 'storage::secondary::'
@@ -76,7 +76,7 @@ def run(ctx):
                if c.body.name.startswith(SEC + 'column')]
     ctx.floor(R2, len(readers), 2, 'raw reads of column files')
     for c in readers:
-        ok = c.body.root == GET_BLOCK
+        ok = prog.owned_by(c.body.root, {GET_BLOCK})        # get_block, or a helper only get_block calls
         ctx.ob(R2, f'who:{c.body.root}→raw-read', ok, f'raw column read `{c.fn}` in {c.body.name}', [site(c.body, c.bb)])
     # every index file is decoded through from_bytes
     fb = [c for c in prog.calls_matching_all(suffix('BlockIndex::decode_length_delimited', 'prost::Message::decode_length_delimited'))
@@ -291,3 +291,85 @@ def run(ctx):
                    [site(g, c.bb)],
                    what='Column::get_block takes the checksum type from the trailer of the block it is about to verify: a corrupted trailer '
                         'that reads {type None, checksum 0} verifies, and the damaged values are returned')
+
+    short_transfers_examined(ctx, prog, 'C18-R12')
+
+
+PARTIAL = re.compile(r'FileExt::(read_at|write_at)$|io::Read::read$|io::Write::write$|AsyncReadExt::read$|AsyncWriteExt::write$')
+
+
+def unexamined_counts(prog, prefix):
+    """calls of a read / write that may transfer fewer bytes than asked, whose byte count is never looked at"""
+    out, n = [], 0
+    for b in prog.bodies.values():
+        if not b.name.startswith(prefix) or b.rec.get('derived'):
+            continue
+        for c in b.calls:
+            if not PARTIAL.search(c.fn or '') or c.dest is None or c.dest['p']:
+                continue
+            n += 1
+            # forward: the result, through `?` / await machinery and moves, down to the usize; any real use of it counts
+            track, todo, examined = set(), [c.dest['l']], False
+            while todo and not examined:
+                x = todo.pop()
+                if x in track:
+                    continue
+                track.add(x)
+                if x in b.ret_locals():
+                    examined = True         # handed to the caller
+                    break
+                for u in uses_of(b, x):
+                    kind = u[0]
+                    if kind == 'assign':
+                        lhs, rv = u[2], u[3]
+                        if rv.get('rv') == 'use' and rv['op']['k'] != 'const' and any(p_.startswith('as:Break') or p_.startswith('as:Err') for p_ in rv['op']['pl']['p']):
+                            continue            # the error, not the count
+                        if rv.get('rv') in ('binop', 'unop') or (rv.get('rv') == 'cast' and b.local_ty(x) == 'usize'):
+                            examined = True
+                        elif rv.get('rv') == 'agg' and not (rv.get('adt') or '').endswith(('Result', 'Poll', 'ControlFlow')):
+                            examined = True
+                        elif not lhs['p']:
+                            todo.append(lhs['l'])
+                        elif lhs['l'] in b.ret_locals():
+                            examined = True
+                    elif kind == 'call':
+                        t = u[2]
+                        if re.search(r'Try::branch$|FromResidual::from_residual$|Future::poll$|IntoFuture::into_future$|Pin::<.*>::new_unchecked$|From::from$',
+                                     t.get('fn') or ''):
+                            if not t['dest']['p']:
+                                todo.append(t['dest']['l'])
+                        else:
+                            examined = True
+                    elif kind == 'discr':
+                        pass
+                    elif kind == 'switch' and b.local_ty(x) in ('usize', 'u64', 'u32'):
+                        examined = True
+                    elif kind in ('return', 'yield'):
+                        examined = True
+            if not examined:
+                out.append((b, c))
+    return out, n
+
+
+def short_transfers_examined(ctx, prog, rid):
+    ctx.rule(rid, 'a read that may return fewer bytes than asked (`read_at`, `Read::read`; likewise `write_at` / `Write::write`) tells how many '
+                  'it transferred; a caller that throws the count away takes the zero-initialised rest of its buffer for file content - a '
+                  'truncated column file then reads as a block of zeroes whose zeroed trailer says "no checksum". Every such call in the '
+                  'storage engine either hands the count on or looks at it; `read_exact*` / `write_all` have no count and are the normal case')
+    bad, n = unexamined_counts(prog, SEC)
+    for b, c in bad:
+        ctx.functions_analysed.add(b.name)
+        ctx.ob(rid, f'{prog.owner_root(b.root)}·{(c.fn or "").rsplit("::", 1)[-1]}·count-examined', False,
+               f'{b.name}: `{c.fn}` at block {c.bb}: the number of bytes transferred is never used', [site(b, c.bb)],
+               what=f'{b.root.rsplit("::", 1)[-1]} ignores a short transfer of `{(c.fn or "").rsplit("::", 1)[-1]}`: after a truncated file the buffer keeps its zeroes and is taken for data')
+    ctx.ob(rid, 'storage·no-unexamined-short-transfer', not bad, f'{n} partial-transfer call(s) in storage::secondary examined; count unused: {len(bad)}',
+           nontrivial=False)
+    try:
+        import mir
+        fx = mir.load_fixture()
+        fbad, fn_ = unexamined_counts(fx, 'storage::secondary::')
+        got = {b.root for b, _ in fbad}
+        ctx.ob(rid, 'self-test·fixture', got == {'storage::secondary::short_read_ignored'} and fn_ >= 3,
+               f'positive example flagged: {sorted(got)} of {fn_} partial reads in the fixture (expected exactly short_read_ignored)')
+    except SystemExit as e:
+        ctx.ob(rid, 'self-test·fixture', False, f'fixture crate could not be analysed: {e}')
